@@ -12,8 +12,8 @@ import traceback
 
 VERIF = os.path.dirname(os.path.dirname(os.path.abspath(__file__)))
 REPO = os.environ.get("VERIF_REPO", "/repo")
-EVIDENCE_DIR = os.path.join(VERIF, "evidence")
-REPLAY_DIR = os.path.join(VERIF, "replays")
+EVIDENCE_DIR = os.environ.get("VERIF_EVIDENCE_DIR", os.path.join(VERIF, "evidence"))
+REPLAY_DIR = os.environ.get("VERIF_REPLAY_DIR", os.path.join(VERIF, "replays"))
 KNOWN_FILE = os.path.join(VERIF, "known_findings.json")
 NPROC = int(os.environ.get("VERIF_NPROC", "16"))
 
@@ -133,6 +133,13 @@ class Report:
             self.samples.append(r["sample"])
         for k, v in r.get("vacuity", {}).items():
             self.vacuity[k] = self.vacuity.get(k, 0) + v
+
+    def red_enough(self, n=25) -> bool:
+        """A run that already has n confirmed violations is red; the remaining cases are skipped (and said so)."""
+        if len(self.violations) >= n:
+            self.extra["stopped_early"] = f"{len(self.violations)} confirmed violations; remaining cases skipped"
+            return True
+        return False
 
     def finish(self) -> int:
         os.makedirs(EVIDENCE_DIR, exist_ok=True)
